@@ -21,9 +21,26 @@ u32 regcomp(void *preg, u8 *pattern, u32 flags) { u32 i = pattern[0] == '1'; rx_
 u32 regexec(void *preg, u8 *str, u64 n, void *m, u32 flags) { return preg == rx_obj[0] ? !rx_match[0] : preg == rx_obj[1] ? !rx_match[1] : 1; }
 void regfree(void *preg) { }
 
+void *_ZNK7abigail2ir8var_decl10get_symbolEv(void *v) { sym_sp.p = has_sym ? (void *)sym_obj : 0; sym_sp.c = 0; return &sym_sp; }
+/* -DVARS=1: the variable twins (keep_wrt_*_of_vars_*) with the variable lists of the builder */
+#ifndef VARS
+#define VARS 0
+#endif
+#if VARS
+#define w_keep_id w_keep_id_v
+#define w_keep_suppress w_keep_suppress_v
+#define w_keep_keep w_keep_keep_v
+#define L_SUPPR 1
+#define L_KEEP 3
+#define L_IDS 5
+#else
+#define L_SUPPR 0
+#define L_KEEP 2
+#define L_IDS 4
+#endif
 static void mkfn(void)
 {
-  fn_vt[0] = 0; fn_vt[3 + 9] = (void *)qn; fn_obj[0] = (u64)&fn_vt[3];
+  fn_vt[0] = 0; fn_vt[3 + 9] = (void *)qn; fn_vt[3 + 2] = (void *)qn;   /* get_qualified_name: slot 9 of function_decl, slot 2 of var_decl */ fn_obj[0] = (u64)&fn_vt[3];
   vs_make(&fn_qname, "fn"); fn_qname_i.raw = &fn_qname;
 }
 void h_keep_by_id(void)
@@ -36,9 +53,9 @@ void h_keep_by_id(void)
   /* the list of symbol ids to keep: any subset (in this order) of { "f", "f@@1", "g@2" } */
   _Bool k0 = nondet_bool(), k1 = nondet_bool(), k2 = nondet_bool();
   vstr_t s;
-  if (k0) { vs_make(&s, "f"); w_holder_add(h, 4, &s); }
-  if (k1) { vs_make(&s, "f@@1"); w_holder_add(h, 4, &s); }
-  if (k2) { vs_make(&s, "g@2"); w_holder_add(h, 4, &s); }
+  if (k0) { vs_make(&s, "f"); w_holder_add(h, L_IDS, &s); }
+  if (k1) { vs_make(&s, "f@@1"); w_holder_add(h, L_IDS, &s); }
+  if (k2) { vs_make(&s, "g@2"); w_holder_add(h, L_IDS, &s); }
   void *p = w_priv_new(h);
   u8 keep = w_keep_id(p, (void *)fn_obj);
   int listed = (k0 && name_f && !has_ver) || (k1 && name_f && has_ver && ver_1) || (k2 && !name_f && has_ver && !ver_1);
@@ -60,8 +77,8 @@ void h_keep_by_regex(void)
   u32 n_drop = NDROP, n_keep = NKEEP;   /* list lengths are concrete per entry (spec.json): 0, 1 and 2 patterns */
   void *h = w_holder_new();
   vstr_t s;
-  for (u32 i = 0; i < 2; i++) if (i < n_drop) { vs_make(&s, i ? "1d" : "0d"); w_holder_add(h, 0, &s); }
-  for (u32 i = 0; i < 2; i++) if (i < n_keep) { vs_make(&s, i ? "1k" : "0k"); w_holder_add(h, 2, &s); }
+  for (u32 i = 0; i < 2; i++) if (i < n_drop) { vs_make(&s, i ? "1d" : "0d"); w_holder_add(h, L_SUPPR, &s); }
+  for (u32 i = 0; i < 2; i++) if (i < n_keep) { vs_make(&s, i ? "1k" : "0k"); w_holder_add(h, L_KEEP, &s); }
   void *p = w_priv_new(h);
   u8 ks = w_keep_suppress(p, (void *)fn_obj);
   u8 kk = w_keep_keep(p, (void *)fn_obj);
